@@ -119,6 +119,17 @@ def inject(ws, pid, cfg, tier):
     crates = sorted({g["crate"] for g in cfg["groups"] if g["engine"] == "kani"})
     for g in cfg["groups"]:
         g.setdefault("modules", [])
+    # all groups of one crate are compiled with the same module set, hence the same features
+    for crate in crates:
+        feats = []
+        for g in cfg["groups"]:
+            if g["engine"] == "kani" and g["crate"] == crate and g.get("features"):
+                for f in g["features"].split(","):
+                    if f not in feats:
+                        feats.append(f)
+        for g in cfg["groups"]:
+            if g["engine"] == "kani" and g["crate"] == crate and feats:
+                g["features"] = ",".join(feats)
     for crate in crates:
         mods = ["spec", "vk"]
         for g in cfg["groups"]:
